@@ -9,6 +9,7 @@ structure D where
   ids : Std.HashMap String Nat := {}
   next : Nat := 1
   rejected : Bool := false
+  sizes : Std.HashMap Nat Nat := {}     -- response id -> body size (from the `resp` declarations)
 
 def intern (d : D) (n : String) : D × Nat :=
   match d.ids.get? n with
@@ -25,13 +26,14 @@ def events (d : D) (toks : List String) : D × List Ev :=
     | some w => if w.startsWith "@" then (match (w.drop 1).toString.toNat? with | some n => [Ev.tick n] | none => []) else []
     | none => []
   match toks with
+  | ["resp", rid, _, _, size] => ({ d with sizes := d.sizes.insert (rid.toNat?.getD 0) (size.toNat?.getD 0) }, [])
   | ["q", n] => (d, [.tick (n.toNat?.getD 0)])
   | ["tick", n] => (d, [.tick (n.toNat?.getD 0)])
   | ["qs", a, q, c, r] => (d, [.quiescent (kv a) (kv q) (kv c != 0) (kv r != 0)])
   | ["final", q] => (d, [.final (kv q)])
   | ["call", t, k, to, _, _] => let (d, t) := intern d t; (d, tm ++ [.call t (owner k) (parseTo to)])
   | ["w", t, tag, k, r, _] => let (d, t) := intern d t; (d, tm ++ [.sent t (tag.toNat?.getD 0) (owner k) (decide ((r.toInt?.getD (-1)) ≥ 0))])
-  | ["rh", t, rid, tag, r, _, _] => let (d, t) := intern d t; (d, tm ++ [.hdr t (owner rid) (tag.toNat?.getD 0) (r = "40")])
+  | ["rh", t, rid, tag, r, _, _] => let (d, t) := intern d t; (d, tm ++ [.hdr t (owner rid) (tag.toNat?.getD 0) ((d.sizes.get? (owner rid)).getD 0) (r = "40")])
   | ["rbb", t, k, _, _, _] => let (d, t) := intern d t; (d, tm ++ [.bodyBegin t (owner k)])
   | ["rb", t, rid, k, r, _, _, _] => let (d, t) := intern d t; (d, tm ++ [.bodyEnd t (owner rid) (owner k) (r.toInt?.getD (-1))])
   | ["intr", target, _, "by", b] => let (d, tg) := intern d target; let (d, b) := intern d b; (d, [.intr tg b])
